@@ -51,7 +51,8 @@
 (*                               its references replaced by the loaded     *)
 (*                               children, and entered in loaded_dict      *)
 (*                               (503, 770)                                *)
-(* phases: dump (root) -> load -> redump (of the loaded root) -> done.     *)
+(* phases: build (the heap is chosen) -> dump (root) -> load -> redump (of  *)
+(* the loaded root) -> done.                                               *)
 (*                                                                         *)
 (* Init / AddEvent / StartDump choose the heap nondeterministically from a bounded family with   *)
 (* SHARING chosen freely: an EV referenced from 0..n of {a station, the    *)
@@ -78,13 +79,15 @@ CONSTANTS
     Places,        \* where an event object is referenced from: "q" pending, "h" processed, "qh" both, "qq" pending twice
     ExtModes,      \* subset of BOOLEAN; TRUE: one object is of an extension class (x_obj / x_plain / x_opaque), FALSE: none is
     RootKinds,     \* class tags of the objects that are dumped ("sim", "net", "queue", "evse", "ev", "batt", "event")
-    Rec            \* TRUE: emit one BHV line per completed behaviour
+    Rec,           \* TRUE: emit one BHV line per completed behaviour
+    Fault          \* "none": the mechanism as it is.  "battery-fresh-memo": NEGATIVE CONTROL - the loader of an EV builds
+                   \* its battery without consulting loaded_dict; TLC must then refute Isomorphic (cfg Serial_neg)
 
 VARIABLES
     params,        \* the choices made by Init (kept for the emitted case)
     heap,          \* the original object graph
     root,          \* the object to_json() is called on
-    phase,         \* "dump" | "load" | "redump" | "done" | "emitted"
+    phase,         \* "build" | "dump" | "load" | "redump" | "done" | "emitted"
     stk,           \* recursion stack of frames [o, j]
     ctx, order,    \* context_dict of the dump (id -> entry) and the order in which ids were registered
     loaded,        \* loaded_dict: old id -> new id
@@ -347,17 +350,19 @@ DumpDone ==             \* to_json returns; from_json(...) is called on the resu
     /\ UNCHANGED <<params, heap, root, ctx, order, loaded, heap2, nnew, ctx2, order2, warns>>
 
 \* ---- _from_registry / _build_from_id ------------------------------------
+IgnoresMemo(r) == Fault = "battery-fresh-memo" /\ r.f = "_battery"
+
 LoadDescend ==          \* _build_from_id of a child that has not been loaded yet
     /\ phase = "load" /\ stk # <<>> /\ Top.j <= Len(ctx[Top.o].refs)
     /\ LET t == ctx[Top.o].refs[Top.j].to IN
-         /\ t \notin DOMAIN loaded
+         /\ t \notin DOMAIN loaded \/ IgnoresMemo(ctx[Top.o].refs[Top.j])
          /\ t \in DOMAIN ctx                      \* otherwise KeyError "not found in context_dict"
          /\ stk' = Append(stk, [o |-> t, j |-> 1])
     /\ UNCHANGED <<params, heap, root, phase, ctx, order, loaded, heap2, nnew, ctx2, order2, warns>>
 
 LoadMemoHit ==          \* `if obj_id in loaded_dict: return loaded_dict[obj_id]`
     /\ phase = "load" /\ stk # <<>> /\ Top.j <= Len(ctx[Top.o].refs)
-    /\ ctx[Top.o].refs[Top.j].to \in DOMAIN loaded
+    /\ ctx[Top.o].refs[Top.j].to \in DOMAIN loaded /\ ~IgnoresMemo(ctx[Top.o].refs[Top.j])
     /\ stk' = [stk EXCEPT ![Len(stk)].j = @ + 1]
     /\ UNCHANGED <<params, heap, root, phase, ctx, order, loaded, heap2, nnew, ctx2, order2, warns>>
 
@@ -369,7 +374,7 @@ LoadBuild ==            \* the object is built from its entry and entered in loa
        IN /\ heap2' = heap2 @@ (nid :> [cls |-> e.cls,
                                         sc |-> [j \in 1..Len(e.sc) |-> Dec(e.sc[j])],
                                         refs |-> [j \in 1..Len(e.refs) |-> [e.refs[j] EXCEPT !.to = loaded[@]]]])
-          /\ loaded' = loaded @@ (o :> nid)
+          /\ loaded' = (o :> nid) @@ loaded            \* loaded_dict[obj_id] = obj
           /\ nnew' = nnew + 1
           /\ warns' = warns \cup (IF IsExt(e.cls) THEN {<<"load", o, "unhandled">>} ELSE {})
                             \cup (IF HasFlag(e) THEN {<<"load", o, "no-loader">>} ELSE {})
@@ -483,7 +488,8 @@ RedumpEqual ==
             /\ \A o \in DOMAIN ctx : RegSame(ctx[o], ctx2[loaded[o]])
             /\ order2 = [k \in 1..Len(order) |-> loaded[order[k]]]
 
-\* (e) is (a)-(d) for every root: RootKinds contains every class in the exhaustive configuration.
+\* (e) loading a sub-object on its own gives the sub-graph reachable from it: (a)-(d) with that object as root
+\* (configurations with RootKinds <- RootsAll / RootsSub / RootsNetQueue; LoadedExact: and nothing more is created).
 
 \* the restored queue is the same ARRAY (so it is a heap again without heapify, and pops in the same order)
 QueueSame ==
